@@ -29,11 +29,54 @@ def generate():
     for c in range(0x110000):
         if bool(ws.match(chr(c))) != chr(c).isspace():
             raise RuntimeError('re \\s and str.isspace disagree on U+%04X' % c)
+    dg = ranges(lambda c: bool(re.match(r'\d', chr(c))))
+    wd = ranges(lambda c: bool(re.match(r'\w', chr(c))))
     lines = ['(* GENERATED from the running interpreter by harness/gen/gen_tables.py -- do not edit *)',
              '(* python %s *)' % sys.version.split()[0],
              'From Coq Require Import ZArith List.', 'Import ListNotations.', '',
              '(* str.isspace() / regex \\s *)',
-             'Definition space_ranges : list (Z * Z) := %s.' % fmt(sp)]
+             'Definition space_ranges : list (Z * Z) := %s.' % fmt(sp),
+             '(* regex \\d (str patterns) *)',
+             'Definition digit_ranges : list (Z * Z) := %s.' % fmt(dg),
+             '(* regex \\w (str patterns) *)',
+             'Definition word_ranges : list (Z * Z) := %s.' % fmt(wd)]
+    # ---- tables used by the parser model ----
+    import html as _html
+    import html.entities
+    import importlib
+    core = importlib.import_module('mistletoe.core_tokens')
+    span = importlib.import_module('mistletoe.span_token')
+
+    def cstr(x):
+        return '[' + '; '.join(str(ord(c)) for c in x) + ']'
+    lines.append('(* str.isupper() of a single character *)')
+    lines.append('Definition upper_ranges : list (Z * Z) := %s.' % fmt(ranges(lambda c: chr(c).isupper())))
+    dvals = ranges(lambda c: chr(c).isdecimal())
+    import unicodedata
+    for a, b in dvals:
+        for c in range(a, b + 1):
+            if unicodedata.decimal(chr(c)) != (c - a) % 10:
+                raise RuntimeError('decimal digit block does not start at zero: U+%04X' % c)
+    lines.append('(* int() of a decimal digit: (c - start of its block) mod 10; blocks = digit_ranges *)')
+    folds = [(c, chr(c).casefold()) for c in range(0x110000) if chr(c).casefold() != chr(c)]
+    blocks = {}
+    for c, f in folds:
+        blocks.setdefault(c // 256, []).append((c, f))
+    lines.append('(* str.casefold(), grouped by c / 256 *)')
+    lines.append('Definition casefold_table : list (Z * list (Z * list Z)) :=\n  [%s]%%Z.' % ';\n   '.join(
+        '(%d, [%s])' % (k, '; '.join('(%d, %s)' % (c, cstr(f)) for c, f in v)) for k, v in sorted(blocks.items())))
+    lines.append('(* mistletoe.core_tokens.punctuation / unicode_whitespace / whitespace (runtime objects) *)')
+    lines.append('Definition punct_ranges : list (Z * Z) := %s.' % fmt(ranges(lambda c: chr(c) in core.punctuation)))
+    lines.append('Definition uws_ranges : list (Z * Z) := %s.' % fmt(ranges(lambda c: chr(c) in core.unicode_whitespace)))
+    lines.append('Definition ws_ranges : list (Z * Z) := %s.' % fmt(ranges(lambda c: chr(c) in core.whitespace)))
+    lines.append('(* mistletoe.span_token._tags *)')
+    lines.append('Definition html_tags : list (list Z) :=\n  [%s]%%Z.' % '; '.join(cstr(t) for t in sorted(span._tags)))
+    ents = sorted(html.entities.html5.items())
+    lines.append('(* html.entities.html5 *)')
+    lines.append('Definition html5_entities : list (list Z * list Z) :=\n  [%s]%%Z.' % ';\n   '.join('(%s, %s)' % (cstr(k), cstr(v)) for k, v in ents))
+    lines.append('(* html._invalid_charrefs / _invalid_codepoints *)')
+    lines.append('Definition invalid_charrefs : list (Z * list Z) := [%s]%%Z.' % '; '.join('(%d, %s)' % (k, cstr(v)) for k, v in sorted(_html._invalid_charrefs.items())))
+    lines.append('Definition invalid_codepoints : list Z := [%s]%%Z.' % '; '.join(str(k) for k in sorted(_html._invalid_codepoints)))
     return {'GenTables.v': '\n'.join(lines) + '\n'}
 
 
